@@ -5,7 +5,7 @@ From Emitter Require Import Lib.Base Model.MsgCodec Model.Murmur Model.Channel M
 Inductive stepc := Step (client : N) (o : op) (obs : list (list pkt)).
 
 Inductive case :=
-| CBroker (mqtt : bool) (contract sign : N) (now : Z) (keys : list (bytes * key)) (n : N)
+| CBroker (mqtt : bool) (contract sign : N) (now : Z) (keys : list (bytes * key)) (n : N) (subs : list N)
           (steps : list stepc) (dump : list (list N * N)) (stored : list (bytes * bytes * N)) (watcher helper : N)
 (* a presence watcher that does not read while another connection makes the listed subscriptions
    in one packet: the channels it was notified about afterwards *)
@@ -92,7 +92,7 @@ Record st := St { br : @broker trie; sp : @broker held; ok : bool; code : N }.
 
 Definition check (c : case) : N :=
   match c with
-  | CBroker mqtt contract sign now keys n steps dump stored watcher helper =>
+  | CBroker mqtt contract sign now keys n subs steps dump stored watcher helper =>
     let e := Env mqtt contract sign now keys 2592000 in
     let s := fold_left (fun s x =>
                           match x with
@@ -107,7 +107,7 @@ Definition check (c : case) : N :=
                                        (clients n) 0 in
                             St b sb (ok s && forallb (fun i => mset_eqb (out_of b i) (nth (N.to_nat i) obs [])) (clients n))
                                (code s |+| oc)
-                          end) steps (St (broker0 trie_ix n) (broker0 held_ix n) true 0) in
+                          end) steps (St (broker0 trie_ix subs) (broker0 held_ix subs) true 0) in
     let mine := filter (fun p => negb ((snd p =? watcher) || (snd p =? helper))) dump in
     let mp := pairs (t_root (b_trie (br s))) in
     bit (ok s) 1
@@ -125,7 +125,7 @@ Definition check (c : case) : N :=
 (* debugging aid: the first step and client where model and implementation differ *)
 Definition first_diff (c : case) : option (N * N * list pkt * list pkt) :=
   match c with
-  | CBroker mqtt contract sign now keys n steps dump stored watcher helper =>
+  | CBroker mqtt contract sign now keys n subs steps dump stored watcher helper =>
     let e := Env mqtt contract sign now keys 2592000 in
     (fix go (b : @broker trie) (l : list stepc) (k : N) :=
        match l with
@@ -136,6 +136,6 @@ Definition first_diff (c : case) : option (N * N * list pkt * list pkt) :=
          | Some i => Some (k, i, out_of b' i, nth (N.to_nat i) obs [])
          | None => go b' r (k + 1)
          end
-       end) (broker0 trie_ix n) steps 0
+       end) (broker0 trie_ix subs) steps 0
   | CBurst _ _ => None
   end.
